@@ -114,3 +114,17 @@ Theorem C14_specification_read_on_finite_tables : forall sts F vals,
   vread sts (fun idx => VFin (F idx)) vals = match qread sts F vals with Some q => VFin q | None => VUndef end.
 Proof. exact vread_finite. Qed.
 Print Assumptions C14_specification_read_on_finite_tables.
+
+(* capstone: on THE array that stores a finite table in the documented layout (discrete states first, *)
+(* then continuous states, each group in declaration order; no indexer = no filter-restricted state),  *)
+(* called with the discrete labels and the continuous axes of the next state, the function             *)
+(* representation returns exactly the value the specification's read returns -- no layout hypothesis    *)
+From LCM Require Import Proofs.C14_OnLayout.
+Theorem C14_function_representation_on_the_layout_array_is_the_specifications_read :
+  forall (sts : list (string * grid)) (F : list nat -> Q) (vals : list Q) (q : Q) (dl : list nat),
+  grids_valid sts -> length vals = length sts ->
+  qread sts F vals = Some q -> disc_labels sts vals = Some dl ->
+  vread sts (fun idx => VFin (F idx)) vals = VFin q /\
+  function_representation (layout_array sts F) None [] (map Z.of_nat dl) (conts_of sts vals) == q.
+Proof. exact function_representation_on_the_layout_array. Qed.
+Print Assumptions C14_function_representation_on_the_layout_array_is_the_specifications_read.
